@@ -31,6 +31,7 @@ EXPLANATION = (
     "must select the same extractor for every MIME class, and an alias must select the extractor of its base. "
     "(DOC) every extension in the README tables reaches the extractor family of its section. (USE) read_file, the "
     "archive member router and the attachment router obtain their extractor from get_extractor/is_supported_file only."
+    ' Path(x).suffix / .name / .stem are modelled by PurePosixPath; for path classes whose trailing extension the property does not define (trailing separator, names that start with dots) only the agreement of the two entry points is decided.'
 )
 NOT_DECIDED = ["behaviour of os.path.splitext / str.lower themselves (trusted, modelled by posixpath.splitext / str.lower)"]
 TRUSTED = [
